@@ -72,6 +72,11 @@ NextS == UNCHANGED dummy /\
                      xi1 |-> Xi1_se23(h, 1, -2), xi0 |-> Xi0_se23(h, y1, y2), k2 |-> K2_se23(h), k3 |-> K3_se23(h),
                      ad1 |-> adm("se23", Xi1_se23(h, 1, -2)), ad0 |-> adm("se23", Xi0_se23(h, y1, y2)),
                      AdE |-> AdClosed(E), AdEm |-> AdClosed(Em)]
+        \/ \E rho \in {<<3,1,-1>>} :
+              tv' = [op |-> "jac_se3_gen", h |-> h, rho |-> rho, p |-> GenP(h, rho), cell |-> cell, exp |-> RM(QMat(h), QNorm(h))]
+        \/ \E r1 \in {<<3,1,-1>>}, r2 \in {<<0,-2,1>>} :
+              tv' = [op |-> "jac_se23_gen", h |-> h, rho |-> r1, rho2 |-> r2, p |-> GenP(h, r1), p2 |-> GenP(h, r2), cell |-> cell,
+                     exp |-> RM(QMat(h), QNorm(h))]
         (* AD: d/dx_i to_Matrix(exp x) = [J_l e_i]x R  with the exact symbolic J_l *)
         \/ tv' = [op |-> "ad_so3", h |-> h, cell |-> cell, nV0 |-> nV0(h), NV1 |-> NV1(h), n |-> nOf(h), N |-> QNorm(h),
                   exp |-> RM(QMat(h), QNorm(h))]
